@@ -19,6 +19,7 @@ package log
 import (
 	"bytes"
 	"encoding/json"
+	"math"
 	"strconv"
 	"unicode/utf8"
 )
@@ -155,6 +156,13 @@ func (enc *JSONEncoder) AppendUint64(u uint64) {
 func (enc *JSONEncoder) AppendFloat64(v float64) {
 	enc.appendSeparator()
 	enc.last = JSONTokenValue
+	if math.IsNaN(v) || math.IsInf(v, 0) {
+		// JSON has no literal for non-finite numbers: write them as strings.
+		enc.buf.WriteByte('"')
+		enc.buf.WriteString(strconv.FormatFloat(v, 'f', -1, 64))
+		enc.buf.WriteByte('"')
+		return
+	}
 	enc.buf.WriteString(strconv.FormatFloat(v, 'f', -1, 64))
 }
 
